@@ -171,6 +171,14 @@ def _pc_setup(ex, ctx):
   vlen = sym.ufun('val_len', sym.Val, sym.IntS)
   isb = sym.ufun('isinst_BindingStatement', sym.Val, sym.BoolS)
   ex.path.assume(sym.forall([v], z3.Implies(isb(v), vlen(v) == 5), patterns=[isb(v)]))
+  # ... and their `location` field holds a Location (same assumption; without it the use of
+  # `statement.location` as a Location record is an unproved downcast obligation)
+  loc = sym.ufun('attr_location', sym.Val, sym.Val)
+  ex.path.assume(sym.forall([v], sym.ufun('isinst_Location', sym.Val, sym.BoolS)(loc(v)),
+                            patterns=[loc(v)]))
+  item = sym.ufun('val_item', sym.Val, sym.IntS, sym.Val)
+  ex.path.assume(sym.forall([v], z3.Implies(isb(v), sym.ufun(
+      'isinst_Location', sym.Val, sym.BoolS)(item(v, z3.IntVal(4)))), patterns=[isb(v)]))
 
 
 pc.setup = _pc_setup
